@@ -8,10 +8,10 @@ INVARIANTS
   AckedSurvive
   NeverForeignBytes
   ReopenAlways
+  ViewsAgreeOnRet
 PROPERTIES
   T_AckedReadBack
   T_NeverForeignRead
-  T_ViewsAgree
   T_QueriesReadOnly
   T_BackfillReportsPostGaps
 CONSTRAINT Finished
